@@ -194,6 +194,9 @@ pub(crate) fn replay_wal(
 								"WAL segment #{:020} exceeds single memtable capacity, splitting",
 								segment_id
 							);
+							// The rest of the segment goes into the next memtable:
+							// flushing this one must not release the segment.
+							current_memtable.set_wal_segment_continues();
 							memtables.push((Arc::clone(&current_memtable), segment_id));
 							current_memtable = Arc::new(MemTable::new(arena_size));
 							// Retry on fresh memtable
